@@ -616,3 +616,44 @@ Proof.
   specialize (H' ltac:(split; reflexivity)).
   destruct ff; vm_compute in Hr2; inversion Hr2; subst; apply H'; cbn; tauto.
 Qed.
+
+(** C03 (capacity 0): try_send succeeds exactly when it pairs with a parked receive *)
+Theorem rv_try_send_ok_iff c s h v :
+  snd (fst (step c s (TrySend h v))) = OOk <->
+  exists hd, h_live_side s h Tx = Some hd /\ h_closed hd = false /\ rcnt s <> 0 /\ rq s <> [].
+Proof.
+  cbn [step]. destruct (h_live_side s h Tx) as [hd|].
+  - destruct (h_closed hd) eqn:Hc.
+    + cbn. split; [discriminate|]. intros [hd' [X [Y _]]]. inversion X; subst. congruence.
+    + unfold core_send. destruct (N.eqb_spec (rcnt s) 0) as [Z|Z].
+      * cbn. split; [discriminate|]. intros [hd' [_ [_ [Y _]]]]. congruence.
+      * destruct (rq s) as [|[g w] rest]; cbn.
+        -- split; [discriminate|]. intros [hd' [_ [_ [_ Y]]]]. congruence.
+        -- split; [|reflexivity]. intros _. exists hd. repeat split; auto. discriminate.
+  - cbn. split; [discriminate|]. intros [hd' [X _]]. discriminate.
+Qed.
+
+(* a successful try_send consumes exactly the oldest parked receive and fills its dest *)
+Theorem rv_try_send_pairs c s h v s' e :
+  step c s (TrySend h v) = (s', OOk, e) ->
+  exists g w rest, rq s = (g, w) :: rest /\ rq s' = rest /\ sq s' = sq s
+                   /\ fs s' = aupd g (fut_done (Some v)) (fs s)
+                   /\ e = [EIntro v; EOffer v; EHand v; EAck v; EWake w].
+Proof.
+  cbn [step]. destruct (h_live_side s h Tx) as [hd|]; [|discriminate].
+  destruct (h_closed hd); [discriminate|]. unfold core_send.
+  destruct (N.eqb (rcnt s) 0); [discriminate|].
+  destruct (rq s) as [|[g w] rest]; [discriminate|]. intros X. inversion X; subst.
+  exists g, w, rest. repeat split; reflexivity.
+Qed.
+
+(* len / is_empty / is_full / capacity are the constants of a channel that never buffers *)
+Theorem rv_observers c s h s' b l em fu cap e :
+  step c s (Obs h) = (s', OObs b l em fu cap, e) ->
+  l = 0 /\ em = true /\ fu = true /\ cap = 0 /\ s' = s /\
+  exists hd, aget h (hs s) = Some hd /\
+             b = match h_side hd with Tx => N.eqb (rcnt s) 0 | Rx => N.eqb (scnt s) 0 end.
+Proof.
+  cbn [step]. destruct (aget h (hs s)) as [hd|]; [|discriminate]. intros X. inversion X; subst.
+  repeat split; auto. exists hd. split; reflexivity.
+Qed.
